@@ -18,7 +18,8 @@ if [ "$mode" = confirm ]; then
   (cd $w && timeout 900 go test -vet=off -count=1 ./... 2>&1 | grep -v '^table:' | grep "gopher-lua	\|FAIL" | head -3)
   git -C /repo worktree remove --force $w
 fi
+if [ -n "$(git -C /repo status --porcelain)" ]; then echo "REFUSING: /repo has uncommitted changes (commit them first)"; exit 2; fi
 git -C /repo apply $dir/patch.diff || { echo "cannot apply to /repo"; exit 2; }
 /verif/bin/gverif check --property $prop --evidence /var/tmp/seed-evidence.json --verif /var/tmp/seed-verif 2>&1 | sed 's#/var/tmp/seed-verif/replay/[A-Z0-9]*/##' | cut -c1-220 | tail -8
-git -C /repo checkout -- .
+git -C /repo apply -R $dir/patch.diff || git -C /repo checkout -- .
 rm -rf /var/tmp/seed-verif /var/tmp/seed-evidence.json
